@@ -48,8 +48,8 @@ def cases(tier, seed):
             out.append(dict(model="reinforce:exponential", env=env, s=rnd.randrange(10**6), epochs=3, bs=5, beta=rnd.choice([0.5, 0.95, 0.3])))
             out.append(dict(model="reinforce:rollout", env=env, s=rnd.randrange(10**6), epochs=4, warm=rnd.choice([2, 3]), bs=5, exp_beta=rnd.choice([0.5, 0.3, 0.95])))
             out.append(dict(model="a2c", env=env, s=rnd.randrange(10**6), epochs=2, bs=4))
-            for warm in (1, 2):
-                out.append(dict(model="reinforce_warmup_critic", env=env, s=rnd.randrange(10**6), epochs=warm + 3, warm=warm, bs=5, train=10))
+            for warm in (1, 2, 3, 4):  # (with 2 warm-up epochs the only mixture weight is 1/2, which hides swapped weights)
+                out.append(dict(model="reinforce_warmup_critic", env=env, s=rnd.randrange(10**6), epochs=warm + 2, warm=warm, bs=5, train=10))
             for S in (3, 5):
                 out.append(dict(model="pomo", env=env, s=rnd.randrange(10**6), epochs=2, S=S, bs=rnd.choice([3, 4])))
             for S, A in ((0, 4), (4, 4), (3, 2), (5, 2)):
